@@ -59,6 +59,23 @@ Proof.
   now apply NoDup_map_filter.
 Qed.
 
+(* the reverse next index built from a list of entries knows exactly the hashes they name *)
+Lemma next_fold_keys (e : entry) (ns : list hash) (nx : omap) n :
+  In n (okeys (fold_left (fun nx n => oset nx n e) ns nx)) <-> In n (okeys nx) \/ In n ns.
+Proof.
+  revert nx. induction ns as [|x ns IH]; intros nx; cbn [fold_left In]; [tauto|].
+  rewrite IH, In_okeys_oset. intuition (subst; auto).
+Qed.
+
+Lemma next_index_keys (tmp : list entry) (nx : omap) n :
+  In n (okeys (fold_left (fun nx e => fold_left (fun nx n => oset nx n e) (e_next e) nx) tmp nx)) <->
+  In n (okeys nx) \/ named_in tmp n.
+Proof.
+  revert nx. induction tmp as [|e es IH]; intros nx; cbn [fold_left].
+  - unfold named_in. cbn. tauto.
+  - rewrite IH, next_fold_keys. unfold named_in, all_nexts. cbn [flat_map]. rewrite in_app_iff. tauto.
+Qed.
+
 Section Bounded.
   Variables (U : list entry) (l o : log).
   Hypothesis UO : univ_ok U.
@@ -117,6 +134,31 @@ Section Bounded.
         * intros [H1 [H2 H3]]. repeat split; auto. rewrite H2. intro Hc. apply H3. now apply X.
       + apply (from_entries_props tmp).
       + apply (from_entries_props _).
+  Qed.
+
+  (* ... and the reverse next index of the log it leaves is that of the kept entries: nothing is
+     remembered of the entries that were dropped *)
+  Theorem bounded_join_next :
+    exists vu l',
+      values full = Some vu /\ join l o false size = (l', Ok tt) /\
+      forall n, In n (okeys (l_next l')) <-> named_in (lastn (Z.to_nat size) (oslice vu)) n.
+  Proof.
+    pose proof (linv_join U l o UO Il Io SameId newitems D) as If.
+    destruct (values_spec U full UO If TO OT) as [vu [V _]].
+    exists vu.
+    set (tmp := if size <? olen vu then skipn (Z.to_nat (olen vu - size)) (oslice vu) else oslice vu).
+    assert (Htmp : tmp = lastn (Z.to_nat size) (oslice vu)).
+    { unfold tmp, lastn, olen. assert (length (oslice vu) = length vu) by (unfold oslice; apply map_length).
+      destruct (Z.ltb_spec size (Z.of_nat (length vu))).
+      - f_equal. lia.
+      - replace (length (oslice vu) - Z.to_nat size)%nat with 0%nat by lia. reflexivity. }
+    eexists. split; [exact V|]. split.
+    - unfold join, join_reads.
+      assert (E0 : N.eqb (l_id l) (l_id o) = true) by (apply N.eqb_eq; exact SameId). rewrite E0. cbn [negb].
+      rewrite D, OK. cbn [negb].
+      assert (E : size <? 0 = false) by (apply Z.ltb_ge; lia). rewrite E.
+      change (values _) with (values full). rewrite V. fold tmp. reflexivity.
+    - cbn zeta. cbn [l_next]. rewrite <- Htmp. intros n. rewrite next_index_keys. cbn. tauto.
   Qed.
 
   (* a bound at least as large as the merged log keeps everything *)
